@@ -813,7 +813,7 @@ def E_catchment_fromdict(rng, tier):
     """from_dict-built catchments of 0 / 1 / 2 cells and inconsistent content"""
     from hydrodiy.gis.grid import Grid, Catchment
     from hydrodiy.gis import grid as g
-    for (nr, nc) in ((1, 1), (2, 2), (4, 5)):
+    for (nr, nc) in ((1, 1), (2, 2), (4, 5), (3, 0), (0, 3), (0, 0)):
         for cells in ([], [0], [0, 1], [nr * nc - 1], list(range(nr * nc)),
                       [nr * nc], [-1], [2 ** 40],
                       # valid and invalid cell numbers together (a negative number is
